@@ -410,7 +410,7 @@ def run_arm(desc, calls, level, refs, stats=None):
         prog = c05_arm.compile_ir(m, level)
     except c05_arm.CompileError as e:
         if e.missing:
-            raise Discard("arm: cannot be linked, ppci has no runtime routine %s" % e.missing)
+            return "-O%s: arm machine code cannot be linked: it calls the runtime routine %s; ArmArch.get_runtime() and the rest of ppci define no such routine" % (level, e.missing)
         raise Discard("code generation fails (C29): %s" % str(e)[:80])
     except c05_arm.Unsupported as e:
         raise Discard("arm glue: %s" % str(e)[:60])
@@ -549,6 +549,137 @@ def _kf5_rewrite(desc):
     return desc
 
 
+# -- arm (A32) ---------------------------------------------------------------------------------------------------------
+NARROW = ("i8", "u8", "i16", "u16")
+ARM = ("arm",)
+
+
+def _kf7_consumers(f):
+    """(block, index, instruction, operand positions) of every instruction that looks at the upper register bits of an 8/16
+    bit operand: comparisons, '>>' and widening casts"""
+    ty = _value_types(f)
+    for b in f["blocks"]:
+        for k, i in enumerate(b["ins"]):
+            if i[0] == "cjmp" and ty.get(i[1], ty.get(i[3])) in NARROW:
+                yield b, k, i, (1, 3)
+            elif i[0] == "binop" and i[2] in NARROW and i[4] == ">>":
+                yield b, k, i, (3,)
+            elif i[0] == "cast" and ty.get(i[3]) in NARROW and i[2] in genir.BITS and genir.BITS[i[2]] > genir.BITS[ty[i[3]]]:
+                yield b, k, i, (3,)
+
+
+def _kf7_shape(desc):
+    return any(True for f in desc["functions"] for _ in _kf7_consumers(f))
+
+
+def _kf7_rewrite(desc):
+    """every such operand goes through memory first (volatile store + load of its own type: ldrsb / ldrb / ldrsh / ldrh leave
+    the register sign / zero extended, which is the form the unrepaired patterns silently assume)"""
+    for f in desc["functions"]:
+        ty = _value_types(f)
+        n = 0
+        for b, k, i, positions in reversed(list(_kf7_consumers(f))):
+            pre = []
+            for pos in positions:
+                t = ty.get(i[pos])
+                if t not in NARROW:
+                    continue
+                size = genir.BITS[t] // 8
+                base = "%s_kc%d" % (f["name"], n)
+                n += 1
+                pre += [["alloc", base + "s", size, size], ["addr", base + "p", base + "s"], ["store", i[pos], base + "p", True], ["load", base, t, base + "p", True]]
+                i[pos] = base
+            b["ins"][k:k] = pre
+    return desc
+
+
+def _kf8_shape(ins):
+    return ins[0] == "binop" and ((ins[2] == "i32" and ins[4] in ("/", "%")) or (ins[2] == "u32" and ins[4] == "/"))
+
+
+def _kf8_model(desc):
+    """what ppci's __sdiv computes: the UNSIGNED quotient of the two bit patterns (and a - q * b as remainder)"""
+    import copy
+
+    d = copy.deepcopy(desc)
+    for f in d["functions"]:
+        for b in f["blocks"]:
+            out = []
+            for ins in b["ins"]:
+                if ins[0] == "binop" and ins[2] == "i32" and ins[4] in ("/", "%"):
+                    n = ins[1]
+                    out += [["cast", n + "_ua", "u32", ins[3]], ["cast", n + "_ub", "u32", ins[5]], ["binop", n + "_uq", "u32", n + "_ua", ins[4], n + "_ub"], ["cast", n, "i32", n + "_uq"]]
+                else:
+                    out.append(ins)
+            b["ins"] = out
+    return d
+
+
+def _kf10_shape(desc):
+    return any(len(f["params"]) > 4 for f in desc["functions"]) or any(len(e["args"]) > 4 for e in desc["externals"])
+
+
+def _kf10_split(f):
+    """parameters of f that stay in r1..r4 (pointers first: a buffer address is not known when the module is built) and
+    those that move into globals"""
+    idx = sorted(range(len(f["params"])), key=lambda k: f["params"][k][1] != "ptr")
+    keep = sorted(idx[:4])
+    return keep, [k for k in range(len(f["params"])) if k not in keep]
+
+
+def _kf10_rewrite_call(desc, call):
+    """The module in which no subroutine has more than four parameters: the others travel in fresh globals that the caller
+    stores before the call and the callee loads first thing (semantically the same program), and the matching harness
+    call (its moved arguments become the initial values of those globals).  None when this cannot be expressed."""
+    import copy
+
+    d = copy.deepcopy(desc)
+    if any(len(e["args"]) > 4 for e in d["externals"]):
+        return None
+    split = {}
+    for f in d["functions"]:
+        if len(f["params"]) > 4:
+            keep, move = _kf10_split(f)
+            if any(f["params"][k][1] == "ptr" for k in move):
+                return None
+            split[f["name"]] = (keep, move, list(f["params"]))
+    if not split:
+        return None
+    fname, args = call
+    newglobals = {}
+    for f in d["functions"]:
+        if f["name"] in split:
+            keep, move, params = split[f["name"]]
+            loads = []
+            for k in move:
+                pn, ty = params[k]
+                g = "gs_%s_%d" % (f["name"], k)
+                size = genir.size_of(ty, d["ptr_bits"])
+                v = args[k] if f["name"] == fname else 0
+                if not isinstance(v, int):
+                    return None
+                newglobals[g] = {"name": g, "size": size, "align": size, "init": [(v & ((1 << (8 * size)) - 1)).to_bytes(size, "little").hex()]}
+                loads.append(["load", pn, ty, g, False])
+            f["params"] = [params[k] for k in keep]
+            f["blocks"][(f.get("layout") or [0])[0]]["ins"][0:0] = loads  # the entry block (it has no phis)
+        for b in f["blocks"]:
+            out = []
+            for ins in b["ins"]:
+                if ins[0] == "call" and len(ins[4]) > 4:
+                    if ins[3] not in split:
+                        return None  # indirect call with stack arguments
+                    keep, move, params = split[ins[3]]
+                    for k in move:
+                        out.append(["store", ins[4][k], "gs_%s_%d" % (ins[3], k), False])
+                    ins = ins[:4] + [[ins[4][k] for k in keep]]
+                out.append(ins)
+            b["ins"] = out
+    d["globals"] = d["globals"] + [newglobals[k] for k in sorted(newglobals)]
+    if fname in split:
+        call = [fname, [args[k] for k in split[fname][0]]]
+    return d, call
+
+
 FINDINGS = {
     # riscv: SHRU8/SHRU16/DIVU16/REMU16 work on the whole register although the upper bits of a narrow value are undefined
     "C05-KF1": {"targets": RV, "shape": _kf1_shape, "rewrite": lambda ins: _rw_widen(ins, ins[2]),
@@ -570,6 +701,20 @@ FINDINGS = {
                 "model": lambda d: d, "nan_model": UNORDERED_FLAGS, "forbid": []},
     "C05-KF5": {"targets": RV, "module_shape": _kf5_shape, "module_rewrite": _kf5_rewrite,
                 "forbid": [("cast", s_, d_) for s_ in ("i16", "u16", "i32", "u32") for d_ in ("i8", "u8", "i16", "u16") if genir.BITS[d_] < genir.BITS[s_]]},
+    # arm: comparisons, '>>' and widening casts of 8/16 bit values use the whole register although narrow arithmetic and
+    # narrowing casts leave its upper bits stale (and 8 bit add/sub zero extend signed results)
+    "C05-KF7": {"targets": ARM, "module_shape": _kf7_shape, "module_rewrite": _kf7_rewrite,
+                "forbid": [("cjmp", t, "*") for t in NARROW] + [("binop", t, ">>") for t in NARROW]
+                + [("cast", s_, d_) for s_ in NARROW for d_ in ("i8", "u8", "i16", "u16", "i32", "u32") if genir.BITS[d_] > genir.BITS[s_]]},
+    # arm: i32 '/' and '%' call __sdiv, which divides UNSIGNED; u32 '/' calls __udiv, which exists nowhere (link error)
+    "C05-KF8": {"targets": ARM, "shape": _kf8_shape, "model": _kf8_model, "missing": "__udiv",
+                "forbid": [("binop", "i32", "/"), ("binop", "i32", "%"), ("binop", "u32", "/")]},
+    # arm: '~' calls __inv32, which exists nowhere (link error)
+    "C05-KF9": {"targets": ARM, "shape": lambda ins: ins[0] == "unop" and ins[3] == "~", "missing": "__inv32",
+                "forbid": [("unop", "i32", "~"), ("unop", "u32", "~")]},
+    # arm: the fifth and further arguments: the caller stores them 8 bytes too high, the callee never loads them
+    "C05-KF10": {"targets": ARM, "module_shape": _kf10_shape, "call_rewrite": _kf10_rewrite_call, "forbid": [],
+                 "profile_kw": {"max_params": 4, "tailrec": False}},
 }
 
 
@@ -612,25 +757,62 @@ def rewritten(desc, kids):
     return d
 
 
+def _run_target(case, module, calls, level, refs, tag):
+    """machine code of `module` for the case's target at one level against given reference observations"""
+    target = case.get("target", "x86_64")
+    if target == "x86_64":
+        return run_x86(module, calls, level, refs, tag)
+    if target == "arm":
+        return run_arm(module, calls, level, refs)
+    return run_riscv(module, calls, level, refs, target)
+
+
 def classify(case, msg):
     import re
 
     target = case.get("target", "x86_64")
-    if "machine code vs IR semantics" not in msg:
+    m = re.match(r"-O(\w)[ :]", msg)
+    levels = [m.group(1)] if m else case.get("levels", LEVELS)
+    if "cannot be linked" in msg:
+        # arm: the generated code calls a runtime routine that ppci defines nowhere
+        for k in sorted(FINDINGS):
+            f = FINDINGS[k]
+            if target in f["targets"] and f.get("missing") and ("routine %s;" % f["missing"]) in msg and has_shape(case["module"], k):
+                return k
+        return None
+    if "machine code vs IR semantics" not in msg and not (target == "arm" and "emulated execution stopped" in msg):
         return None
     cands = [k for k in sorted(FINDINGS) if target in FINDINGS[k]["targets"] and has_shape(case["module"], k)]
     if not cands:
         return None
-    m = re.match(r"-O(\w) ", msg)
-    levels = [m.group(1)] if m else case.get("levels", LEVELS)
     for k in [k for k in cands if "model" in FINDINGS[k]]:
         # the machine code of the module behaves exactly as the finding's model of the miscompiled module prescribes
         try:
             refs = reference(FINDINGS[k]["model"](case["module"]), case["calls"], nan_model=FINDINGS[k].get("nan_model"))
-            if (levels != ["0"] or k != "C05-KF3") and any(r is not None for r in refs) and all(run_x86(case["module"], case["calls"], lv, refs, "k" + lv) is None for lv in levels):
+            if (levels != ["0"] or k != "C05-KF3") and any(r is not None for r in refs) and all(_run_target(case, case["module"], case["calls"], lv, refs, "k" + lv) is None for lv in levels):
                 return k
         except Discard:
             pass
+        finally:
+            cleanup()
+    for k in [k for k in cands if "call_rewrite" in FINDINGS[k]]:
+        # every call of the case holds in the equivalent module that avoids the shape (one module per call: see the rewrite)
+        try:
+            held = 0
+            for call in case["calls"]:
+                rw = FINDINGS[k]["call_rewrite"](case["module"], call)
+                if rw is None:
+                    held = 0
+                    break
+                try:
+                    if run_case(dict(case, module=rw[0], calls=[rw[1]], levels=levels))[0] is not None:
+                        held = 0
+                        break
+                    held += 1
+                except Discard:
+                    pass
+            if held:
+                return k
         finally:
             cleanup()
     cands = [k for k in cands if "rewrite" in FINDINGS[k] or "module_rewrite" in FINDINGS[k]]
@@ -708,7 +890,7 @@ def case_strategy(draw, targets=("x86_64",)):
 
 
 def _worker(arg):
-    seed, n = arg
+    seed, n, targets = arg
     stats = Stats()
 
     def prop(case):
@@ -722,7 +904,6 @@ def _worker(arg):
                    classes=["target:" + case["target"], "levels_ok:%d" % ran, "defined_calls:%d" % min(defined, 4)])
         return msg
 
-    targets = ("x86_64", "riscv", "riscv:rvc") if riscv_available() else ("x86_64",)
     try:
         fails = hyp_search(case_strategy(targets), prop, n, seed, stats, classify=classify, skip_first=1)
     finally:
@@ -805,18 +986,42 @@ def _edge_worker(case):
     return stats, fails
 
 
+ARM_SHARDS = 16
+
+
 def run(ctx):
     reason = x86link.have_toolchain()
     if reason:
         raise HarnessError(reason)
+    rv = riscv_available()
+    arm = False
+    try:
+        from . import c05_arm
+
+        arm, arm_note = c05_arm.available("quick")
+        if arm and not ctx.quick:
+            arm, arm_note = c05_arm.available("thorough")  # larger held-out corpus, not cached
+    except Exception as e:  # the helper or the emulator does not even import: no ARM part
+        arm_note = "%s: %s" % (type(e).__name__, str(e)[:200])
+    if not arm:
+        ctx.stats.notes.append("arm is not checked in this run: vf/arm32.py did not pass its self-check (%s)" % arm_note)
     n = ctx.scale(96, 9600)
-    ctx.pmap(_worker, [(subseed(ctx.seed, PID, w), max(1, n // 16)) for w in range(16)])
+    base = ("x86_64", "riscv", "riscv:rvc") if rv else ("x86_64",)
+    shards = [(subseed(ctx.seed, PID, w), max(1, n // 16), base) for w in range(16)]
+    if arm:
+        # shards of their own (the draws of the sixteen shards above stay what they were before arm was added)
+        n_arm = ctx.scale(96, 4800)
+        shards += [(subseed(ctx.seed, PID, 16 + w), max(1, n_arm // ARM_SHARDS), ("arm",)) for w in range(ARM_SHARDS)]
+    ctx.pmap(_worker, shards)
     sweep = []
-    for t in ["x86_64"] + (["riscv", "riscv:rvc"] if riscv_available() else []):
+    for t in ["x86_64"] + (["riscv", "riscv:rvc"] if rv else []) + (["arm"] if arm else []):
         sweep.extend(edge_cases(t, ctx.quick))
     ctx.pmap(_edge_worker, sweep)
     ctx.extra["edge_sweep_modules"] = len(sweep)
-    ctx.extra["targets_covered"] = ["x86_64"] + (["riscv", "riscv:rvc"] if riscv_available() else [])
+    ctx.extra["targets_covered"] = ["x86_64"] + (["riscv", "riscv:rvc"] if rv else []) + (["arm (A32; integer types up to 32 bits)"] if arm else [])
     ctx.extra["excluded_shapes"] = {k: sorted("%s %s %s" % x for x in FINDINGS[k]["forbid"]) + sorted("%s=%r" % x for x in FINDINGS[k].get("profile_kw", {}).items())
                                     for t in BASE_PROFILES for k in active_findings(t)}
-    ctx.extra["targets_not_covered"] = ["arm", "arm:thumb", "m68k", "mips (no emulator in the sandbox)"]
+    ctx.extra["targets_not_covered"] = ([] if arm else ["arm (vf/arm32.py did not pass its self-check: %s)" % arm_note]) + [
+        "arm:thumb (the emulator vf/arm32.py implements the A32 instruction set only)", "m68k", "mips (no emulator in the sandbox)"]
+    if arm:
+        ctx.extra["arm_emulator_selfcheck"] = "passed (vf/arm32.py selfcheck('quick'), cached in .build)"
